@@ -150,6 +150,9 @@ func (in *Interp) step(st *State, fr *Frame, ins ssa.Instruction) {
 		in.set(fr, x, in.next(st, fr, x))
 	case *ssa.Store:
 		p := in.ptrOf(st, in.get(st, fr, x.Addr), "Store")
+		if st.Thread != 0 {
+			in.access(st, fr, x, p.Obj, p.Path, true)
+		}
 		in.store(st, p, in.get(st, fr, x.Val))
 	case *ssa.If:
 		in.doIf(st, fr, x)
@@ -785,6 +788,9 @@ func (in *Interp) unop(st *State, fr *Frame, x *ssa.UnOp) Value {
 	switch x.Op {
 	case token.MUL: // load
 		p := in.ptrOf(st, v, "load")
+		if st.Thread != 0 {
+			in.access(st, fr, x, p.Obj, p.Path, false)
+		}
 		return in.load(st, p)
 	case token.NOT:
 		return Not(v.(*Term))
@@ -1247,6 +1253,9 @@ func (in *Interp) lookup(st *State, fr *Frame, x *ssa.Lookup) Value {
 		panic(unsupported(fmt.Sprintf("Lookup on %T", base)))
 	}
 	key := in.get(st, fr, x.Index)
+	if st.Thread != 0 {
+		in.access(st, fr, x, m.Obj, nil, false)
+	}
 	elemT := x.X.Type().Underlying().(*types.Map).Elem()
 	var res Value = zeroValue(elemT)
 	found := False
@@ -1294,6 +1303,9 @@ func (in *Interp) mapUpdate(st *State, fr *Frame, x *ssa.MapUpdate) {
 	}
 	key := in.get(st, fr, x.Key)
 	val := in.get(st, fr, x.Value)
+	if st.Thread != 0 {
+		in.access(st, fr, x, m.Obj, nil, true)
+	}
 	mo := st.Heap[m.Obj].(*MapObj)
 	for i := range mo.Keys {
 		eq := in.keyEq(key, mo.Keys[i])
@@ -1313,6 +1325,9 @@ func (in *Interp) rangeInit(st *State, fr *Frame, x *ssa.Range) Value {
 	case MapV:
 		it := &IterState{}
 		if c.Obj >= 0 {
+			if st.Thread != 0 {
+				in.access(st, fr, x, c.Obj, nil, false)
+			}
 			mo := st.Heap[c.Obj].(*MapObj)
 			it.Keys, it.Vals = mo.Keys, mo.Vals
 		}
@@ -1434,6 +1449,9 @@ func (in *Interp) builtin(st *State, fr *Frame, b *ssa.Builtin, args []Value) Va
 		m := args[0].(MapV)
 		if m.Obj < 0 {
 			return TupleV{}
+		}
+		if st.Thread != 0 {
+			in.access(st, fr, fr.Block.Instrs[fr.PC], m.Obj, nil, true)
 		}
 		mo := st.Heap[m.Obj].(*MapObj)
 		for i := range mo.Keys {
